@@ -63,6 +63,18 @@ def mkEnv (k : Nat) (ents : List (Nat × Nat)) : Env :=
     quorum := fun _ rows => quorumIdx k rows
     timeout := fun _ => some 1000 }
 
+/-- as `mkEnv`, with the quorum parameter `k` of each EPOCH listed in `ks` (protocol parameters that change at an
+epoch boundary: a message of epoch `e` is certified under the parameters its signers registered with); epochs that
+are not listed use `k` -/
+def mkEnvK (k : Nat) (ks : List (Nat × Nat)) (ents : List (Nat × Nat)) : Env :=
+  let epochOf := fun e => (ents[e]?.map (·.2)).getD 0
+  { entityEpoch := epochOf
+    entityDisc := fun e => (ents[e]?.map (·.1)).getD 0
+    quorum := fun e rows => quorumIdx (((ks.find? (·.1 == epochOf e)).map (·.2)).getD k) rows
+    timeout := fun _ => some 1000 }
+
+theorem mkEnvK_nil (k : Nat) (ents : List (Nat × Nat)) : mkEnvK k [] ents = mkEnv k ents := rfl
+
 def b01 (b : Bool) : String := if b then "1" else "0"
 
 def insertPair (x : Nat × Nat) : List (Nat × Nat) → List (Nat × Nat)
@@ -135,6 +147,7 @@ structure Scenario where
   gen : Nat
   ents : List (Nat × Nat)
   evs : List Event
+  ks : List (Nat × Nat) := []
 
 def parseScenario (r : Req) : Option Scenario := do
   let n ← r.nat "n"
@@ -142,6 +155,9 @@ def parseScenario (r : Req) : Option Scenario := do
   let gen ← r.nat "gen"
   let ents ← parseEnts (← r.list "ents")
   let evs ← (← r.list "evs").mapM parseEvent
-  pure { n, k, gen, ents, evs }
+  let ks ← match r.list "ks" with
+    | some l => parseEnts l
+    | none => some []
+  pure { n, k, gen, ents, evs, ks }
 
 end AggProto
